@@ -24,7 +24,16 @@ fn main() {
         .filter(|s| !s.thread && s.limit.is_none() && s.max_mem.is_none() && s.ttl.is_none() && !s.has_pred && !s.is_result)
         .cloned()
         .collect();
-    for sp in plain {
+    // at most four plain functions per invocation (two sync, two async where available), rotating with the seed
+    let mut pick: Vec<_> = Vec::new();
+    for want_async in [false, true] {
+        let pool: Vec<_> = plain.iter().filter(|s| s.is_async == want_async).cloned().collect();
+        for k in 0..2usize.min(pool.len()) {
+            pick.push(pool[(seed as usize + k * 3) % pool.len()].clone());
+        }
+    }
+    pick.dedup_by_key(|s| s.idx);
+    for sp in pick {
         let fi = sp.idx;
         let nk = 4usize;
         // phase 1 (sequential): every key is computed and stored once; large values make clones slow
@@ -61,5 +70,68 @@ fn main() {
         }
         let e1 = rt::EXEC.load(Ordering::SeqCst);
         println!("H|{}|{}|{}|{}|{}", fi, sp.name, threads * rounds, e1 - e0, WRONG.load(Ordering::SeqCst));
+    }
+    // statistics under contention (C15): callers race with a thread that keeps invalidating the same cache (group
+    // invalidation by tag and conditional invalidation of every key); whatever the interleaving, every completed call
+    // counted exactly one hit or one miss, and every miss ran the body exactly once
+    let tagged: Vec<_> = specs
+        .iter()
+        .filter(|s| !s.thread && !s.has_pred && s.ttl.is_none() && !s.tags.is_empty())
+        .cloned()
+        .collect();
+    let mut pick: Vec<_> = Vec::new();
+    for want_async in [false, true] {
+        let pool: Vec<_> = tagged.iter().filter(|s| s.is_async == want_async).cloned().collect();
+        if !pool.is_empty() {
+            pick.push(pool[seed as usize % pool.len()].clone());
+        }
+    }
+    for sp in pick {
+        let fi = sp.idx;
+        let nk = 4usize;
+        rt::NEXT_TL.with(|n| n.set(Some(rt::Next { n: 1, ok: true, len: 8, ci: true, io: false })));
+        let _ = corpus::CALLS[fi](0);
+        let _ = cachelito_core::invalidate_cache(&sp.name);
+        cachelito_core::stats_registry::reset(&sp.name);
+        let e0 = rt::EXEC.load(Ordering::SeqCst);
+        let stop = Arc::new(std::sync::atomic::AtomicBool::new(false));
+        let barrier = Arc::new(Barrier::new(threads + 1));
+        let mut hs = Vec::new();
+        for t in 0..threads {
+            let barrier = barrier.clone();
+            hs.push(std::thread::spawn(move || {
+                let mut rng = Rng::new(seed ^ (t as u64 * 104729 + fi as u64));
+                barrier.wait();
+                for _ in 0..rounds {
+                    let j = rng.below(nk as u64) as usize;
+                    rt::NEXT_TL.with(|n| n.set(Some(rt::Next { n: 7 + j as u64, ok: true, len: 8, ci: true, io: false })));
+                    let _ = corpus::CALLS[fi](j);
+                }
+            }));
+        }
+        let inv = {
+            let (stop, barrier, name, tag) = (stop.clone(), barrier.clone(), sp.name.clone(), sp.tags[0].clone());
+            std::thread::spawn(move || {
+                barrier.wait();
+                let mut n = 0u64;
+                while !stop.load(Ordering::SeqCst) {
+                    if n % 2 == 0 {
+                        cachelito_core::invalidate_by_tag(&tag);
+                    } else {
+                        cachelito_core::invalidate_with(&name, |_k| true);
+                    }
+                    n += 1;
+                    std::thread::yield_now();
+                }
+            })
+        };
+        for h in hs {
+            h.join().unwrap();
+        }
+        stop.store(true, Ordering::SeqCst);
+        inv.join().unwrap();
+        let e1 = rt::EXEC.load(Ordering::SeqCst);
+        let st = verif_harness::l2::stats_of(&sp.name);
+        println!("HS|{}|{}|{}|{}|{}", fi, sp.name, threads * rounds, e1 - e0, st);
     }
 }
